@@ -115,6 +115,14 @@ class ClassTable:
             ci = self.classes[c]
             if fname in ci.fields:
                 return c, ci.fields[fname]
+        # downcast: a field declared by exactly one subclass (the receiver's static type is a base class)
+        hits = []
+        for c in self.subclasses(cls):
+            if c != cls and fname in self.classes[c].fields and (c, self.classes[c].fields[fname]) not in hits:
+                if not any(self.is_subclass(c, h[0]) for h in hits):
+                    hits.append((c, self.classes[c].fields[fname]))
+        if len(hits) == 1:
+            return hits[0]
         return None
 
     def all_fields(self, cls):
